@@ -692,8 +692,8 @@ def classify_asm(template, constraints=''):
     if len(lines) <= 2:
         if re.search(r'\bmfence\b', txt) and mem:
             return 'fence_full'
-        if re.search(r'\bxchg[a-z]?\b.*\(', txt) and mem:
-            return 'fence_full'
+        if re.search(r'\bxchg[a-z]?\b', txt) and mem and (re.search(r'\(', txt) or '*m' in constraints):
+            return 'fence_full'  # xchg with a memory operand is implicitly locked
         if re.search(r'\block\b', txt) and mem:
             return 'fence_full'
         if re.search(r'\blfence\b', txt):
